@@ -1,6 +1,6 @@
 package main
 
-// Lgtp2: layers/gtp2.go decoder sub-check (C19, C05, C01 for GTPv2; no SerializeTo).  Ops: dec dec2 (lmisc_common.go).
+// Lgtp2: layers/gtp2.go decoder sub-check (C19, C05, C01 for GTPv2; no SerializeTo).  Ops: dec dec2 (lmisc_common.go), decf (lsmall_common.go: the registered decoder decodeGTPv2).
 
 import (
 	"fmt"
@@ -56,7 +56,19 @@ var lgtp2Desc = &lmDesc{
 	},
 }
 
-func (lgtp2) Run(c Case) Result { return lmRun(lgtp2Desc, c) }
+var lgtp2Decf = lsDecfCfg{d: lgtp2Desc, lt: layers.LayerTypeGTPv2, next: func(l gopacket.Layer, b *lmBuilder) string {
+	if b.next == gopacket.Decoder(gopacket.LayerTypePayload) {
+		return "t0"
+	}
+	return fmt.Sprintf("other%v", b.next)
+}}
+
+func (lgtp2) Run(c Case) Result {
+	if lsHasDecf(c) {
+		return lsRunDecf(lgtp2Decf, c)
+	}
+	return lmRun(lgtp2Desc, c)
+}
 
 // g2Build: first octet, IEs as (type, length field (-1 = right), content octets present), trailing octets, message length = consistent + delta
 func g2Build(rng *rand.Rand, b0 byte, ies [][3]int, trail int, delta int) []byte {
@@ -165,6 +177,15 @@ func (lgtp2) Gen(rng *rand.Rand, tier string) []Case {
 			if tier == "thorough" {
 				add("tag:large", "dec:"+lnHex(make([]byte, 65535)))
 				add("tag:large", "dec:"+lnHex(make([]byte, 65540)))
+			}
+			// the registered decoder decodeGTPv2 on valid, truncated and malformed input
+			for i := 0; i < 40; i++ {
+				add("decf:" + lnHex(valid(rng)))
+				add("tag:malformed", "decf:"+lnHex(lnRandBytes(rng, lnPick(rng, 0, 3, 4, 7, 8, 11, 12, 30))))
+			}
+			pd := g2Build(rng, 0x48, [][3]int{{1, -1, 8}, {82, -1, 1}}, 0, 0)
+			for k := 0; k <= len(pd); k++ {
+				add("tag:truncated-prefix-of-valid", "decf:"+lnHex(pd[:k]))
 			}
 			big := g2Build(rng, 0x48, [][3]int{{1, -1, 1500}, {2, -1, 900}}, 0, 0)
 			add("tag:large", "dec:"+lnHex(big))
